@@ -1,6 +1,9 @@
 use std::{hash::BuildHasher, sync::Arc};
 
+#[cfg(not(transparencies_stretto_verif))]
 use parking_lot::Mutex;
+#[cfg(transparencies_stretto_verif)]
+use stretto_sim_rt::sync::Mutex;
 
 #[cfg(feature = "async")]
 use crate::policy::AsyncLFUPolicy;
